@@ -202,7 +202,7 @@ def cases(c):
             continue
         out.append({'fn': 'exact', 'real': real, 'P': P, 'K': K, 'NFFT': NFFT, 'N': N, 'bins': bins,
                     'method': gen.pick(rng, ['music', 'ev']), 'form': gen.pick(rng, ['function', 'class']),
-                    'fs': gen.pick(rng, [1.0, 2.0, 1000.0]), 'i': i})
+                    'fs': gen.pick(rng, [1.0, 2.0, 1000.0]), 'amp10': int(gen.pick(rng, [0, 0, 0, -3, -7, 4])), 'i': i})
     for i in range(700 if c.tier == 'quick' else 5000):
         P = int(rng.integers(3, 17))
         N = int(rng.integers(2 * P, 129 if i % 5 else 200))
@@ -258,6 +258,7 @@ def run_case(c, d):
     real, P, K, NFFT, N = d['real'], d['P'], d['K'], d['NFFT'], d['N']
     c.set_nontrivial(K >= 2)
     x = gen.data({'kind': 'exact', 'N': N, 'cplx': not real, 'grid': NFFT, 'bins': d['bins']}, c.rng(d, 'x'))
+    x = x * 10.0 ** d.get('amp10', 0)
     true = sorted(set(b % NFFT for b in (d['bins'] + [-b for b in d['bins']] if real else d['bins'])))
     feats = {'method': d['method'], 'real': real, 'form': d['form'], 'nfft_odd': bool(NFFT % 2)}
     try:
